@@ -65,6 +65,7 @@ func c20(r *core.Run) {
 			"both inputs are used only via len() and index-wise XOR with each other", why)
 	}
 	c20Distance(r)
+	c20ScanWidth(r)
 }
 
 func describeRet(v ssa.Value) string {
